@@ -424,11 +424,19 @@ def _gen_table(rng, names, used_tables, used_cnames, nc, thorough, family=None):
             elif x < 0.88:
                 # sqlalchemy.column('x'): lightweight column, not bound to the table
                 elems.append({"lwcol": rng.choice(["name", "qty", "MixedCase", "a b", "select", "it's"])})
-            elif x < 0.94:
+            elif x < 0.91:
                 elems.append({"cast": c})
-            else:
+            elif x < 0.94:
                 elems.append({"collate": c})
-        if not any(k in e for e in elems for k in ("col", "func", "desc", "cast", "collate")):
+            else:
+                # operator expressions over table columns (what self_group() parenthesises): a + b, a || b, (a + b) * 2,
+                # -a, a ->> 'k', and_(a > 0, b > 0); labelled (the documented way to key postgresql_ops) or not
+                c2 = rng.choice(cn)
+                e = {"opexpr": rng.choice(["add", "concat", "mul", "neg", "arrow", "and", "addcollate"]), "cols": [c, c2]}
+                if rng.random() < 0.6:
+                    e["label"] = rng.choice(["full", "lbl", "my label", "it's"])
+                elems.append(e)
+        if not any(k in e for e in elems for k in ("col", "func", "desc", "cast", "collate", "opexpr")):
             elems.insert(0, {"col": rng.choice(cn)})
         ix = {"name": _cname(rng, names, used_cnames, nc, allow_none=False, ix=True), "elems": elems, "unique": rng.random() < 0.3, "kw": {}}
         x = rng.random()
@@ -444,6 +452,10 @@ def _gen_table(rng, names, used_tables, used_cnames, nc, thorough, family=None):
             ix["kw"]["postgresql_include"] = [rng.choice(cn)]
         elif x < 0.26:
             ix["kw"]["sqlite_where"] = {"text": "qty > 5"}
+        # postgresql_ops keyed by a column name / by the label of an expression member
+        keys = [e["label"] for e in elems if e.get("label")] + [e["col"] for e in elems if "col" in e]
+        if keys and rng.random() < (0.5 if any(e.get("label") for e in elems) else 0.06):
+            ix["kw"]["postgresql_ops"] = {k: rng.choice(["varchar_pattern_ops", "text_pattern_ops", "int4_ops"]) for k in keys[:2]}
         elif x < 0.29:
             ix["kw"]["postgresql_concurrently"] = True
         elif x < 0.31:
@@ -754,6 +766,26 @@ def _index_elem(t, e):
         return sa.cast(_col(t, e["cast"]), sa.String(30))
     if "collate" in e:
         return _col(t, e["collate"]).collate("C")
+    if "opexpr" in e:
+        a, b = _col(t, e["cols"][0]), _col(t, e["cols"][1])
+        k = e["opexpr"]
+        if k == "add":
+            x = a + b
+        elif k == "concat":
+            x = a.concat(b)
+        elif k == "mul":
+            x = (a + b) * 2
+        elif k == "neg":
+            x = -a
+        elif k == "arrow":
+            x = a.op("->>")("k")
+        elif k == "and":
+            x = sa.and_(a > 0, b > 0)
+        elif k == "addcollate":
+            x = a.concat(b).collate("C")
+        else:
+            raise ValueError(e)
+        return x.label(e["label"]) if e.get("label") else x
     raise ValueError(e)
 
 
@@ -861,6 +893,12 @@ def build(spec):
         il = []
         for ix in ts.get("indexes", []):
             kw = {k: _kwval(v) for k, v in (ix.get("kw") or {}).items()}
+            if isinstance(kw.get("postgresql_ops"), dict):
+                # SQLAlchemy matches postgresql_ops against the member's .key: a column's key (which may differ
+                # from its name) or the label of an expression
+                keyof = {c["name"]: c.get("key") or c["name"] for c in ts["columns"]}
+                labels = {e.get("label") for e in ix["elems"]}
+                kw["postgresql_ops"] = {(k if k in labels else keyof.get(k, k)): v for k, v in kw["postgresql_ops"].items()}
             i = sa.Index(_name_obj(ix["name"]), *[_index_elem(t, e) for e in ix["elems"]], unique=bool(ix.get("unique")), **kw)
             if i.table is None:
                 i._set_parent_with_dispatch(t)
@@ -1044,11 +1082,16 @@ def _rename(spec, old, new):
                 for k in ("col", "desc", "cast", "collate"):
                     if k in e:
                         e[k] = fix(e[k])
+                if "cols" in e:
+                    e["cols"] = [fix(x) for x in e["cols"]]
                 if "func" in e:
                     e["func"] = [e["func"][0], fix(e["func"][1])]
             kw = ix.get("kw") or {}
             if "postgresql_include" in kw:
                 kw["postgresql_include"] = [fix(x) for x in kw["postgresql_include"]]
+            if isinstance(kw.get("postgresql_ops"), dict):
+                labels = {e.get("label") for e in ix["elems"]}
+                kw["postgresql_ops"] = {(k if k in labels else fix(k)): v for k, v in kw["postgresql_ops"].items()}
             if isinstance(kw.get("mysql_length"), dict):
                 kw["mysql_length"] = {fix(k): v for k, v in kw["mysql_length"].items()}
     # fk column references live in *another* table's namespace: rename consistently per table
@@ -1077,11 +1120,16 @@ def _rename_scoped(spec, scope, old, new):
             for k in ("col", "desc", "cast", "collate"):
                 if e.get(k) == old:
                     e[k] = new
+            if "cols" in e:
+                e["cols"] = [new if x == old else x for x in e["cols"]]
             if "func" in e and e["func"][1] == old:
                 e["func"] = [e["func"][0], new]
         kw = ix.get("kw") or {}
         if "postgresql_include" in kw:
             kw["postgresql_include"] = [new if x == old else x for x in kw["postgresql_include"]]
+        if isinstance(kw.get("postgresql_ops"), dict):
+            labels = {e.get("label") for e in ix["elems"]}
+            kw["postgresql_ops"] = {((new if k == old else k) if k not in labels else k): v for k, v in kw["postgresql_ops"].items()}
         if isinstance(kw.get("mysql_length"), dict):
             kw["mysql_length"] = {(new if k == old else k): v for k, v in kw["mysql_length"].items()}
     for fk in t.get("fks", []):
@@ -1147,7 +1195,7 @@ def shrink_candidates(spec):
             refd = refd or any(cname in u["cols"] for u in t.get("uniques", []))
             refd = refd or any(cname in fk["cols"] for fk in t.get("fks", []))
             refd = refd or any(fk["reftable"] == ti and cname in fk["refcols"] for t2 in spec["tables"] for fk in t2.get("fks", []))
-            refd = refd or any(cname in (e.get("col"), e.get("desc"), e.get("cast"), e.get("collate")) or (e.get("func") or [None, None])[1] == cname for ix in t.get("indexes", []) for e in ix["elems"])
+            refd = refd or any(cname in (e.get("col"), e.get("desc"), e.get("cast"), e.get("collate")) or (e.get("func") or [None, None])[1] == cname or cname in (e.get("cols") or []) for ix in t.get("indexes", []) for e in ix["elems"])
             for ix in t.get("indexes", []):
                 ikw = ix.get("kw") or {}
                 if cname in ikw.get("postgresql_include", []):
@@ -1315,6 +1363,23 @@ def battery():
                  "existing_nullable": None, "existing_server_default": False, "existing_comment": None,
                  "modify_type": {"t": "user.Epoch", "args": {}}, "modify_nullable": None, "modify_server_default": False,
                  "modify_comment": False, "autoincrement": None}], **o)))
+    # operator expressions as index members, labelled (postgresql_ops keyed by the label) and not, next to plain columns
+    person = table("person", [col("id", primary_key=True), col("first", "String", targs={"length": 50}),
+                              col("Last Name", "String", targs={"length": 50}), col("width"), col("height")],
+                   indexes=[
+                       {"name": "ix_person_first", "elems": [{"col": "first"}], "unique": False, "kw": {"postgresql_ops": {"first": "varchar_pattern_ops"}}},
+                       {"name": "ix_person_full", "elems": [{"opexpr": "concat", "cols": ["first", "Last Name"], "label": "full"}, {"col": "id"}],
+                        "unique": False, "kw": {"postgresql_ops": {"full": "varchar_pattern_ops"}}},
+                       {"name": "ix_person_perimeter", "elems": [{"opexpr": "mul", "cols": ["width", "height"], "label": "perimeter"}], "unique": True, "kw": {}},
+                       {"name": "ix_person_sum", "elems": [{"opexpr": "add", "cols": ["width", "height"]}, {"col": "first"}], "unique": False, "kw": {}},
+                       {"name": "ix_person_neg", "elems": [{"opexpr": "neg", "cols": ["width", "width"], "label": "it's"}], "unique": False, "kw": {"postgresql_ops": {"it's": "int4_ops"}}},
+                       {"name": "ix_person_arrow", "elems": [{"opexpr": "arrow", "cols": ["first", "first"], "label": "k"}, {"opexpr": "and", "cols": ["width", "height"]}],
+                        "unique": False, "kw": {}},
+                       {"name": "ix_person_coll", "elems": [{"opexpr": "addcollate", "cols": ["first", "Last Name"], "label": "c"}, {"func": ["lower", "first"], "label": "lfirst"}],
+                        "unique": False, "kw": {"postgresql_ops": {"lfirst": "varchar_pattern_ops"}}}])
+    for nc in (False, True):
+        out.append(("expr-index-%s" % nc, spec([person], [{"kind": "create_table", "table": 0}] + [
+            {"kind": "create_index", "table": 0, "index": i} for i in range(7)] + [{"kind": "drop_index", "table": 0, "index": 1}], naming_convention=nc)))
     # PostgreSQL only: types with and without a dedicated renderer, inline and ALTER exclude constraints
     pg = table("evt", [col("id", primary_key=True), col("uid", "postgresql.UUID"), col("ip", "postgresql.INET"),
                        col("tags", "postgresql.ARRAY", targs={"item": {"t": "String", "args": {"length": 20}}}),
